@@ -30,6 +30,20 @@ async def pass_all(_name, _sig, _context):
     return types.ValidResult.PASS
 
 
+class _CommandSigner(sec.DigestSha256Signer):
+    # A DigestSha256 Interest signer whose SignatureTime is the timestamp chosen for the command,
+    # not a later reading of the clock
+    def __init__(self, signature_time: int):
+        super().__init__(for_interest=True)
+        self.signature_time = signature_time
+
+    def write_signature_info(self, signature_info):
+        signature_info.signature_type = enc.SignatureType.DIGEST_SHA256
+        signature_info.key_locator = None
+        signature_info.signature_time = self.signature_time
+        signature_info.signature_nonce = utils.gen_nonce_64()
+
+
 class NfdRegister(PrefixRegisterer):
     _prefix_register_semaphore: aio.Semaphore = None
     _last_command_timestamp: int = 0
@@ -47,10 +61,13 @@ class NfdRegister(PrefixRegisterer):
                     self._last_command_timestamp = now
                     break
                 await aio.sleep(0.001)
+            else:
+                # The clock did not advance: never reuse a timestamp
+                self._last_command_timestamp += 1
             try:
                 _, reply, _ = await self.app.express(
                     name=nfd_mgmt.make_command_v2('rib', 'register', self.app.face, name=name),
-                    app_param=b'', signer=sec.DigestSha256Signer(for_interest=True),
+                    app_param=b'', signer=_CommandSigner(self._last_command_timestamp),
                     validator=pass_all,
                     lifetime=1000)
                 try:
@@ -82,10 +99,13 @@ class NfdRegister(PrefixRegisterer):
                     self._last_command_timestamp = now
                     break
                 await aio.sleep(0.001)
+            else:
+                # The clock did not advance: never reuse a timestamp
+                self._last_command_timestamp += 1
             try:
                 _, reply, _ = await self.app.express(
                     nfd_mgmt.make_command_v2('rib', 'unregister', self.app.face, name=name),
-                    app_param=b'', signer=sec.DigestSha256Signer(for_interest=True),
+                    app_param=b'', signer=_CommandSigner(self._last_command_timestamp),
                     validator=pass_all, lifetime=1000)
                 try:
                     ret = nfd_mgmt.parse_response(reply)
